@@ -439,7 +439,7 @@ def run_C07(ctx):
             texts.append(("".join(chr(97 + x % 26) for x in a), "".join(chr(97 + x % 26) for x in b)))
     for o, n in texts:
         for alg in ALGS:
-            for entry in ("real_past", "real_future", "timeout", "timeout_reuse", "timeout_clone", "deadline_then_timeout", "timeout_then_deadline",
+            for entry in ("real_past", "real_future", "real_past_then_future", "timeout", "timeout_reuse", "timeout_clone", "deadline_then_timeout", "timeout_then_deadline",
                           "deadline", "capture", "capture_slices",
                           "algo", "algo_slices", "inline"):
                 if entry == "inline" and "\n" not in o:
@@ -1153,6 +1153,14 @@ def run_C14(ctx):
             w = "u32"
         idl.append("identify w=%s or=%d:%d nr=%d:%d old=%s new=%s" % (w, r[0], r[1], r[2], r[3], gen.fmt_list(a), gen.fmt_list(b)))
         ctx.count("identify:random")
+    # narrow id types on long sides with many repeats (few distinct items): ids must stay dense
+    for _ in range(tiered(ctx, 30, 300)):
+        n = ctx.rng.choice([256, 257, 300, 600])
+        k = ctx.rng.choice([2, 10, 100, 200])
+        a = [ctx.rng.randrange(k) for _ in range(n)]
+        b = [ctx.rng.randrange(k + 20) for _ in range(ctx.rng.choice([5, 300]))]
+        idl.append("identify w=u8 or=0:%d nr=0:%d old=%s new=%s" % (len(a), len(b), gen.fmt_list(a), gen.fmt_list(b)))
+        ctx.count("identify:u8-long-sides-with-repeats")
     C.evaluate(ctx, "identify", idl, rel, nontrivial=lambda comp, kv, impl: "oids=-" not in impl)
     C.evaluate(ctx, "textdiff-65536-distinct", huge_distinct_cases(ctx), rel, x=False, cap=300, nontrivial=nontrivial_text)
 
@@ -1539,6 +1547,10 @@ def run_C15(ctx):
                     b.insert(ctx.rng.randrange(len(b) + 1), n + ctx.rng.randrange(3))
             big.append(gen.raw_line("P", a, b))
             ctx.count("patience:anchor-orders-%d" % n)
+    # more than 2^14 rounds over the unique lists: 17000 unique items reversed, with a repeated item at both ends
+    n = 17000
+    big.append(gen.raw_line("P", [0, 0] + list(range(1, n + 1)), list(range(n, 0, -1)) + [0, 0]))
+    ctx.count("patience:anchor-orders-17000-reversed")
     C.evaluate(ctx, "patience-anchor-orders", big, rel, x=False, cap=300)
 
 
@@ -1627,6 +1639,15 @@ def run_C18(ctx):
             lines.append("close word=%s cands=%s n=%d cutoff=%d" % (
                 gen.hx(word.encode()), "|".join((gen.hx(c.encode()) if c else "e") for c in cands) or "-", n, cb))
             ctx.count("close:cases")
+    # tiny ratios (below 2^-9, where neighbouring f32 values share a heap key) with cutoffs one ulp around them:
+    # a short word against long candidates that share its characters in the wrong order
+    for L in (300, 1100, 2500):
+        for word, cand in (("ab", "b" * L + "a"), ("abc", "c" * L + "ba"), ("ab", "a" + "x" * L + "b")):
+            tot = len(word) + len(cand)
+            b = f32_bits(2.0 * lcs_len_py(word, cand) / tot)
+            for cb in (b, b + 1, max(0, b - 1), b + 2):
+                lines.append("close word=%s cands=%s|%s n=5 cutoff=%d" % (gen.hx(word.encode()), gen.hx(cand.encode()), gen.hx(b"zz"), cb))
+                ctx.count("close:tiny-ratios")
     lines.append("close word=%s cands=%s n=3 cutoff=%d" % (gen.hx(b"appel"), "|".join(gen.hx(x) for x in [b"ape", b"apple", b"peach", b"puppy"]), f32_bits(0.6)))
     # the witness of known finding F9 (two distinct ratios below 2^-9 with the same u32 key)
     c1 = b"a" + b"b" * 131071
